@@ -362,6 +362,10 @@ func c02Engine(p *Prog, r *Report) {
 		r.Undecided("R7", "anchor:model.UpdateList", "", "no instantiation of the generic engine found")
 		return
 	}
+	p.InScope(fn, func() { c02EngineIn(p, r, fn) })
+}
+
+func c02EngineIn(p *Prog, r *Report, fn *ssa.Function) {
 	key := "model.UpdateList"
 	// classify calls by the filter whose Data() feeds them
 	var delCalls, selCalls, mergeCalls, sortCalls []*ssa.Call
@@ -412,6 +416,33 @@ func c02Engine(p *Prog, r *Report) {
 		return
 	}
 	del, sel, merge, srt := delCalls[0], selCalls[0], mergeCalls[0], sortCalls[0]
+	// a stage called inside an extracted helper is represented by the helper's call in the engine;
+	// the helper must hand the stage's result on
+	inner := del
+	flowsOut := true
+	if l, isC := liftInScope(del).(*ssa.Call); isC && l != del {
+		del = l
+		flowsOut = false
+		for _, b := range inner.Parent().Blocks {
+			if ret, isRet := b.Instrs[len(b.Instrs)-1].(*ssa.Return); isRet && len(ret.Results) > 0 {
+				for _, s := range p.Sources(ret.Results[0], false) {
+					if s.Kind == "call" && s.Val == ssa.Value(inner) {
+						flowsOut = true
+					}
+				}
+			}
+		}
+	}
+	if l, isC := liftInScope(sel).(*ssa.Call); isC {
+		sel = l
+	}
+	if l, isC := liftInScope(merge).(*ssa.Call); isC {
+		merge = l
+	}
+	if sel.Parent() != fn || del.Parent() != fn || merge.Parent() != fn || srt.Parent() != fn {
+		r.Undecided("R7", key+"|stages", pos, "stage calls could not be related to the engine's control flow")
+		return
+	}
 	r.Check("R7", key+"|order:delete-before-selector", !blockReaches(sel.Block(), del.Block()) && blockReaches(del.Block(), sel.Block()), p.InstrPos(del), "the delete stage is reachable before, never after, the selector stage")
 	r.Check("R7", key+"|order:delete-before-merge", !blockReaches(merge.Block(), del.Block()) && blockReaches(del.Block(), merge.Block()), p.InstrPos(del), "the delete stage is reachable before, never after, the merge")
 	// existing-data argument of selector stage and merge derives from the delete stage's result (and the parameter)
@@ -425,7 +456,7 @@ func c02Engine(p *Prog, r *Report) {
 		}
 		return false
 	}
-	r.Check("R7", key+"|flow:delete->selector", feeds(sel), p.InstrPos(sel), "the selector stage receives the list produced by the delete stage")
+	r.Check("R7", key+"|flow:delete->selector", feeds(sel) && flowsOut, p.InstrPos(sel), "the selector stage receives the list produced by the delete stage")
 	r.Check("R7", key+"|flow:delete->merge", feeds(merge), p.InstrPos(merge), "the merge receives the list produced by the delete stage")
 	// sort consumes merge result, and every return reachable from the merge returns the sort's result
 	okSort := false
@@ -486,42 +517,46 @@ func c02Store(p *Prog, r *Report) {
 	upd := p.LookupIface("model", "Updater")
 	nStores := 0
 	for _, fn := range fns[:1] { // all instantiations share the body
-		var updCall ssa.Instruction
-		forEachCall(fn, func(site ssa.CallInstruction) {
-			if calleeIsIfaceMethod(site.Common(), upd, "UpdateList") {
-				updCall = site
-			}
-		})
-		idx := 0
-		for _, b := range fn.Blocks {
-			for _, ins := range b.Instrs {
-				st, ok := ins.(*ssa.Store)
-				if !ok {
-					continue
+		p.InScope(fn, func() {
+			var updCall ssa.Instruction
+			forEachCall(fn, func(site ssa.CallInstruction) {
+				if calleeIsIfaceMethod(site.Common(), upd, "UpdateList") {
+					updCall = site
 				}
-				fa, ok := st.Addr.(*ssa.FieldAddr)
-				if !ok || fieldOfAddr(fa) == nil || fieldOfAddr(fa).Name() != "data" {
-					continue
-				}
-				nStores++
-				idx++
-				nilGuards := map[string]bool{}
-				for _, g := range Guards(b) {
-					if x, trueMeansNil, ok := nilTest(g.Cond); ok && trueMeansNil == g.Val {
-						nilGuards[Path(x)] = true
+			})
+			idx := 0
+			for _, sf := range p.ScopeFns(fn) {
+				for _, b := range sf.Blocks {
+					for _, ins := range b.Instrs {
+						st, ok := ins.(*ssa.Store)
+						if !ok {
+							continue
+						}
+						fa, ok := st.Addr.(*ssa.FieldAddr)
+						if !ok || fieldOfAddr(fa) == nil || fieldOfAddr(fa).Name() != "data" {
+							continue
+						}
+						nStores++
+						idx++
+						nilGuards := map[string]bool{}
+						for _, g := range Guards(b) {
+							if x, trueMeansNil, ok := nilTest(g.Cond); ok && trueMeansNil == g.Val {
+								nilGuards[Path(x)] = true
+							}
+						}
+						replace := nilGuards["param:filterPartial"] && nilGuards["param:filterDelete"]
+						merge := updCall != nil && instrDominates(updCall, st)
+						kind := "neither"
+						if replace {
+							kind = "replace path (both filters nil)"
+						} else if merge {
+							kind = "merge path (after UpdateList)"
+						}
+						r.Check("R8", fmt.Sprintf("spine.FunctionData.UpdateData|store#%d", idx), replace || merge, p.InstrPos(st), kind)
 					}
 				}
-				replace := nilGuards["param:filterPartial"] && nilGuards["param:filterDelete"]
-				merge := updCall != nil && instrDominates(updCall, st)
-				kind := "neither"
-				if replace {
-					kind = "replace path (both filters nil)"
-				} else if merge {
-					kind = "merge path (after UpdateList)"
-				}
-				r.Check("R8", fmt.Sprintf("spine.FunctionData.UpdateData|store#%d", idx), replace || merge, p.InstrPos(st), kind)
 			}
-		}
+		})
 	}
 	r.Floor("R8", "stores to FunctionData.data", nStores, 2)
 }
